@@ -3,7 +3,7 @@ import networkx as nx
 
 from tsg.facts import DB, strip, txt, callee, call_args, call_object, walk, const_val, short, callee_node
 from tsg.flow import var_of, base_var, cond_edges_dominating, is_reachable
-from tsg.typestate import member_writes, member_of
+from tsg.typestate import member_writes, member_of, must_pass_after
 from tsg.effects import Purity
 from tsg.build import AnalysisBroken
 
@@ -71,6 +71,30 @@ def reach(cfg, frm_block, frm_idx, to_block, to_idx):
         if s == to_block or nx.has_path(cfg.G, s, to_block):
             return True
     return False
+
+
+def stream_rule(chk, db, rule_id):
+    """every instantiated stream-reading primitive tests the stream after its last extraction and throws std::runtime_error"""
+    nprim = 0
+    for f in db.all_functions(["SparseGrids/tsgIOHelpers.hpp"]):
+        if not short(f.name).startswith("read") or f.d.get("islambda"):
+            continue
+        ext = [c for c in f.calls(into_lambda=False) if is_reachable(f, c) and ((callee(c) or "").endswith("::read") and "istream" in (callee(c) or "") or
+                                                                            (c.get("k") == "CXXOperatorCallExpr" and c.get("op") == ">>" and "istream" in (callee(c) or "")))]
+        if not ext:
+            continue        # composed of other primitives
+        nprim += 1
+        chk.saw(f)
+
+        def state_test(x, f=f):
+            if not ((callee(x) or "").endswith(("::fail", "::good", "::bad", "::eof")) or (x.get("k") == "CXXOperatorCallExpr" and x.get("op") == "!") or (callee(x) or "").endswith("operator bool")):
+                return False
+            iff = next((a for a in f.ancestors(x) if a.get("k") == "IfStmt"), None)
+            return iff is not None and any(y is x for y in walk(iff.get("cond"))) and any(y.get("k") == "CXXThrowExpr" and "runtime_error" in throw_type(y) for y in walk(iff.get("then")))
+        bad = [c for c in ext if not must_pass_after(f, c, state_test)]
+        chk.ob(rule_id, f.key, "stream state tested after the extraction", not bad, f.where,
+               "extraction @%s is not followed by a test of the stream that throws" % [c.get("l") for c in bad][:3] if bad else "%d extraction(s)" % len(ext))
+    return nprim
 
 
 def run(chk):
@@ -305,6 +329,12 @@ def run(chk):
                 chk.ob("C14-D6.siblings", f.name + f.sig, "%s family, role %s" % (fam, role), not missing, f.where,
                        ("siblings reject %s, this overload does not" % missing) if missing else "%d guard(s) agree with the family" % len(g))
     chk.floor("C14-D6.siblings", nfam, 20, "family/role comparisons")
+
+    # ------------------------------------------------------------------ D9 stream primitives
+    chk.rule("C14-D9.stream", "every stream-reading primitive of the I/O layer (readNumber, readVector, readFlag and their instantiations) tests the state of the stream after its last "
+                              "extraction on every path and throws std::runtime_error when it failed: a truncated file can then never feed unread memory to the grid readers")
+    nprim = stream_rule(chk, db, "C14-D9.stream")
+    chk.floor("C14-D9.stream", nprim, 6, "instantiated stream-reading primitives")
 
     # ------------------------------------------------------------------ D8 late failures inside the grid classes
     chk.rule("C14-D8.late", "inside the mutating methods of the five grid classes no call that can throw (explicit throw in its call-graph closure, acceleration mode none, feasible under the "
